@@ -124,8 +124,10 @@ def gen_queries(rng, pairs, tier):
             qs.append(["write"])
         elif r < 0.90:
             qs.append(["write_nodir", ""])        # refused (no directory): a failing query like any other
-        elif r < 0.94:
+        elif r < 0.93:
             qs.append(["merge_base"])
+        elif r < 0.955:
+            qs.append(["merge_into_own_variable"])
         elif r < 0.98:
             qs.append(["merge_over"])
         else:
@@ -159,6 +161,10 @@ def q_exec(q):
         return [{"op": "write", "k": 0, "dir": q[1], "name": "nodir.conf"}]
     if o == "merge_self":
         return [{"op": "merge", "o": 5, "usr": 0, "etc": 0}, {"op": "dump", "k": 5, "ext": False}, {"op": "free", "k": 5}]
+    if o == "merge_into_own_variable":
+        # the result variable still holds the object itself when the call is made; the object is an input, not the result
+        return [{"op": "merge", "o": 5, "usr": 0, "etc": 1, "init": "usr"}, {"op": "dump", "k": 5, "ext": False}, {"op": "free", "k": 5},
+                {"op": "merge", "o": 5, "usr": 1, "etc": 0, "init": "etc"}, {"op": "dump", "k": 5, "ext": False}, {"op": "free", "k": 5}]
     if o == "merge_over":
         return [{"op": "merge", "o": 5, "usr": 1, "etc": 0}, {"op": "dump", "k": 5, "ext": False}, {"op": "free", "k": 5}]
     raise ValueError(o)
